@@ -48,6 +48,8 @@ pub struct Roles {
 	pub msg_enc: String,
 	pub nacct: usize,
 	pub n: usize,
+	/// label of the active account ("" = default)
+	pub active: String,
 }
 
 fn units(v: u64) -> Value {
@@ -195,6 +197,9 @@ pub fn do_call(
 				_ => "default",
 			};
 			let o = guarded(|| api.set_active_account(tok, label));
+			if let Outcome::Ok(_) = &o {
+				r.active = label.to_string();
+			}
 			fin(&o, |_| Value::Null)
 		}
 		"retrieve_outputs" => {
